@@ -12,11 +12,15 @@ topological numbering); `shutdown_phase_order`, `shutdown_order_whole_run` (reso
 module of the creation loop initialised; the start phase logs exactly the start loop); `ready_only_after_first_round`.
 Start-up faults (any exception in `write_<p>`, `initialReads`, the first polls): `write_faults_lose_no_write`,
 `startup_sequence_complete`, `writes_precede_polls_in_prologue`, `no_write_after_first_poll` (full: whole run, any
-faults, no hypothesis), `writes_before_first_poll_partial` (exactly once and before the first poll; no communication
-failure in the initial reads of the thread); `comm_failure_skips_writes` proves the recorded finding.
+faults, no hypothesis), `writes_before_first_poll_partial` (exactly once and before the first poll — **any faults**,
+communication failures in initial reads and first polls included, since the `fix:` commit that makes up for the
+skipped `writeInitParams`); `comm_failure_writes_made_up` / `unrepaired_prologue_skips_writes` show the former finding
+`C15:writes_skipped_after_comm_failure` gone on the model of the repaired code and present on the sequence of the
+unrepaired code.
 Kept as `…_statement` (not proved; evidence = correspondence run + monitors): `init_order_once_statement`,
 `bad_attachment_reported_statement` (its second half is `no_half_start`), `writes_before_first_poll_statement`
-(false on the code that exists: the finding), `shutdown_order_statement` (declared instead of resolved attachments).
+(missing: the link between the Spec's module list and the module objects), `shutdown_order_statement` (declared instead
+of resolved attachments).
 -/
 namespace Frappy.Proofs.C15
 open Frappy.Lifecycle Frappy.Spec.C15 Frappy.Proofs.Lifecycle Frappy.Proofs.LifecycleInit Frappy.Proofs.LifecycleWait
@@ -218,10 +222,14 @@ def bad_attachment_reported_statement : Prop :=
     (badAttachmentB cfg r.st.ioDict = true → r.st.errors ≠ []) ∧
     NoHalfStart ⟨r.st.modules, r.st.errors, r.log, r.st.ioDict⟩
 
+/-- full statement, against the module list of the *configuration*.  (The two well-formedness hypotheses are what a
+Python `dict` guarantees — module names and parameter names are keys; without them the clause is false for trivial
+reasons: a value listed twice is written twice.) -/
 def writes_before_first_poll_statement : Prop :=
   ∀ (cfg : Cfg) (fuel : Nat) (sched : List Act) (pick : List Name → Nat),
     let r := run cfg fuel sched pick
     r.st.oof = false → r.st.errors = [] →
+    (names (allMods cfg r.st.ioDict)).Nodup → (∀ c ∈ allMods cfg r.st.ioDict, c.writes.Nodup) →
     WritesBeforeFirstPoll ((allMods cfg r.st.ioDict).filter (fun c => r.st.modules.contains c.name)) r.log
 
 /-- "configured start values are written before the first poll", order part, **full**: in the whole life of the node —
@@ -236,29 +244,44 @@ theorem no_write_after_first_poll (cfg : Cfg) (fuel : Nat) (sched : List Act) (p
   run_write_order cfg fuel sched pick (uniqueOwner_of_groupsOk _ (startup_groupsOk cfg fuel)) m p
 
 /-- proved part of `writes_before_first_poll_statement` (whole life of a node that came up; every schedule and choice
-function; any faults in the writes and any exception but a communication failure in the initial reads of the thread):
-a configured value `p` of a module `m` served by poll thread `t` is handed to `write_<p>` exactly once in the whole
-log, and never after the first poll of `m`.  Missing for the full statement: (1) the link between the Spec's `allMods`
-and the module objects of the node (`cfgOf`, `members`); (2) threads whose start-up sequence is broken off by a
-communication failure do **not** satisfy "exactly once" for the members behind the failure — `comm_failure_skips_writes`
-(recorded finding), so the full statement is false of the code that exists. -/
+function; **any faults** in the writes, the initial reads and the first polls — communication failures included): a
+configured value `p` of a module `m` served by poll thread `t` is handed to `write_<p>` exactly once in the whole log,
+and never after the first poll of `m`.  (Before the `fix:` commit "start values skipped by a communication failure …"
+this needed "no communication failure in the initial reads of `t`": the members behind the failure were polled without
+their values ever being written — `unrepaired_prologue_skips_writes`.)  Missing for the full statement: the link between
+the Spec's `allMods` and the module objects of the node (`cfgOf`, `members`: that a created module carries the `writes` of
+its configuration and that a module with configured values is registered with exactly one poll thread that is started). -/
 theorem writes_before_first_poll_partial (cfg : Cfg) (fuel : Nat) (sched : List Act) (pick : List Name → Nat)
     (herr : (run cfg fuel sched pick).st.errors = [])
     (t m : Name) (p : String) (ht : t ∈ threadsOf (run cfg fuel sched pick).st)
     (hm : m ∈ members (run cfg fuel sched pick).st t)
-    (hq : ∀ x ∈ members (run cfg fuel sched pick).st t, readsQuiet (objOf (run cfg fuel sched pick).st x))
     (hp : (cfgOf (run cfg fuel sched pick).st m).writes.count p = 1) :
     (run cfg fuel sched pick).log.count (Ev.write m p) = 1 ∧
     NeverAfter (· == Ev.firstpoll m) (· == Ev.write m p) (run cfg fuel sched pick).log := by
   refine ⟨?_, no_write_after_first_poll cfg fuel sched pick m p⟩
-  rw [(run_log cfg fuel sched pick).1] at herr ht hm hq hp
+  rw [(run_log cfg fuel sched pick).1] at herr ht hm hp
   have hG := startup_groupsOk cfg fuel
   rw [run_write_count cfg fuel sched pick herr (uniqueOwner_of_groupsOk _ hG) t m p ht hm
-    (members_nodup_of_groupsOk _ hG t) hq, hp]
+    (members_nodup_of_groupsOk _ hG t), hp]
 
-/-- the hypotheses are met by a node with a Pinata, a shared communicator, a failing write and a failing (not
-communication) initial read, under a schedule that preempts the start loop -/
-def wpU : ModCfg := { (default : ModCfg) with name := "u", cls := .hasio, poll := true, writes := ["w0", "w1"], atts := [⟨"io", some "c", false, 0⟩], writeFail := [("w0", "HardwareError")], readsFail := some "KeyError" }
+/-- **exactly what is missing** for `writes_before_first_poll_statement`, as a hypothesis: `Linked U st` — every module
+description `c` of the list the clause is judged on has become a module object that carries `c`'s configured values
+and is registered with a poll thread that is started.  Under it the clause of the specification itself holds for the
+whole log — every schedule and choice function, any faults, communication failures included. -/
+def Linked (U : List ModCfg) (st : St) : Prop :=
+  ∀ c ∈ U, ∀ p ∈ c.writes, ∃ t ∈ threadsOf st, c.name ∈ members st t ∧ (cfgOf st c.name).writes.count p = 1
+
+theorem writes_before_first_poll_of_linked (cfg : Cfg) (fuel : Nat) (sched : List Act) (pick : List Name → Nat)
+    (herr : (run cfg fuel sched pick).st.errors = []) (U : List ModCfg)
+    (hl : Linked U (run cfg fuel sched pick).st) :
+    WritesBeforeFirstPoll U (run cfg fuel sched pick).log := by
+  intro c hc p hp
+  obtain ⟨t, ht, hm, hcnt⟩ := hl c hc p hp
+  exact writes_before_first_poll_partial cfg fuel sched pick herr t c.name p ht hm hcnt
+
+/-- the hypotheses are met by a node with a shared communicator, a failing write, a communication failure in the initial
+reads of the first member and in the first poll of the second, under a schedule that preempts the start loop -/
+def wpU : ModCfg := { (default : ModCfg) with name := "u", cls := .hasio, poll := true, writes := ["w0", "w1"], atts := [⟨"io", some "c", false, 0⟩], writeFail := [("w0", "HardwareError")], readsFail := some "CommunicationFailedError" }
 def wpV : ModCfg := { (default : ModCfg) with name := "v", cls := .hasio, poll := true, writes := ["w1"], atts := [⟨"io", some "c", false, 0⟩], pollFail := some "CommunicationFailedError" }
 def wpC : ModCfg := { (default : ModCfg) with name := "c", cls := .comm, poll := true, exported := true }
 def wpCfg : Cfg := { mods := [wpU, wpV, wpC], dyn := [] }
@@ -266,14 +289,15 @@ def wpCfg : Cfg := { mods := [wpU, wpV, wpC], dyn := [] }
 example : (run wpCfg 20 [.main, .main, .step "c"] (fun _ => 0)).st.errors = [] ∧
     "c" ∈ threadsOf (run wpCfg 20 [.main, .main, .step "c"] (fun _ => 0)).st ∧
     "v" ∈ members (run wpCfg 20 [.main, .main, .step "c"] (fun _ => 0)).st "c" ∧
-    (∀ x ∈ members (run wpCfg 20 [.main, .main, .step "c"] (fun _ => 0)).st "c",
-      readsQuiet (objOf (run wpCfg 20 [.main, .main, .step "c"] (fun _ => 0)).st x)) ∧
-    (cfgOf (run wpCfg 20 [.main, .main, .step "c"] (fun _ => 0)).st "u").writes.count "w1" = 1 := by
+    ¬ readsQuiet (objOf (run wpCfg 20 [.main, .main, .step "c"] (fun _ => 0)).st "u") ∧
+    (cfgOf (run wpCfg 20 [.main, .main, .step "c"] (fun _ => 0)).st "v").writes.count "w1" = 1 := by
   decide +kernel
 
 /-- the order theorem speaks about something: in that run a value is written and its module is polled -/
 example : Ev.write "u" "w1" ∈ (run wpCfg 20 [.main, .main, .step "c"] (fun _ => 0)).log ∧
-    Ev.firstpoll "u" ∈ (run wpCfg 20 [.main, .main, .step "c"] (fun _ => 0)).log := by
+    Ev.firstpoll "u" ∈ (run wpCfg 20 [.main, .main, .step "c"] (fun _ => 0)).log ∧
+    Ev.write "v" "w1" ∈ (run wpCfg 20 [.main, .main, .step "c"] (fun _ => 0)).log ∧
+    Ev.firstpoll "v" ∈ (run wpCfg 20 [.main, .main, .step "c"] (fun _ => 0)).log := by
   decide +kernel
 
 /-- start-up faults, the loop of `writeInitParams`: for every module object and **every** assignment of exceptions to its
@@ -331,23 +355,56 @@ theorem writes_precede_polls_in_prologue (st : St) (t : Name) :
 example : prologue wfSt "a" = [Ev.write "a" "w0", Ev.write "a" "w1", Ev.initread "a", Ev.write "b" "w1", Ev.initread "b"] ++
     [Ev.firstpoll "a", Ev.rounddone "a"] := by decide
 
-/-- **recorded finding** (`known_findings/C15.json`, `C15:writes_skipped_after_comm_failure`), proved on the model of
-the code that exists: `io` serves `a` and `b`; `initialReads` of `a` raises a CommunicationFailedError.  The node comes
-up, `b` is polled, and the configured value of `b` is never written: the clause "configured start values are written
-before the first poll" fails, and the judge names exactly the clause kept for this class. -/
+/-- the former finding `C15:writes_skipped_after_comm_failure` (`known_findings/C15.json`, now under `fixed`): `io` serves
+`a` and `b`; `initialReads` of `a` raises a CommunicationFailedError. -/
 def cfIo : ModCfg := { (default : ModCfg) with name := "io", cls := .comm, exported := true }
 def cfA : ModCfg := { (default : ModCfg) with name := "a", cls := .hasio, exported := true, poll := true, writes := ["w0"], atts := [⟨"io", some "io", false, 0⟩], readsFail := some "CommunicationFailedError" }
 def cfB : ModCfg := { (default : ModCfg) with name := "b", cls := .hasio, exported := true, poll := true, writes := ["w0"], atts := [⟨"io", some "io", false, 0⟩] }
 def cfCfg : Cfg := { mods := [cfIo, cfA, cfB], dyn := [] }
 
-theorem comm_failure_skips_writes :
+/-- on the model of the repaired code: the node comes up, the round is reported done at once, the configured value of `b`
+is then written — once — and only after that `b` is polled; the clause holds and the judge accepts the run -/
+theorem comm_failure_writes_made_up :
     (run cfCfg 20 [] (fun _ => 0)).st.errors = [] ∧
-    Ev.firstpoll "b" ∈ (run cfCfg 20 [] (fun _ => 0)).log ∧
-    Ev.write "b" "w0" ∉ (run cfCfg 20 [] (fun _ => 0)).log ∧
-    ¬ WritesBeforeFirstPoll [cfB] (run cfCfg 20 [] (fun _ => 0)).log ∧
-    judge cfCfg ⟨(run cfCfg 20 [] (fun _ => 0)).st.modules, [], (run cfCfg 20 [] (fun _ => 0)).log, []⟩ =
-      ["writes_skipped_after_comm_failure"] := by
+    prologue (run cfCfg 20 [] (fun _ => 0)).st "io" =
+      [Ev.write "a" "w0", Ev.initread "a", Ev.comfail "a", Ev.rounddone "io", Ev.write "b" "w0", Ev.firstpoll "a",
+       Ev.firstpoll "b"] ∧
+    WritesBeforeFirstPoll [cfA, cfB] (run cfCfg 20 [] (fun _ => 0)).log ∧
+    judge cfCfg ⟨(run cfCfg 20 [] (fun _ => 0)).st.modules, [], (run cfCfg 20 [] (fun _ => 0)).log, []⟩ = [] := by
   decide +kernel
+
+/-- `Linked` is met by the configuration of the former finding (so `writes_before_first_poll_of_linked` gives the clause
+for it without evaluating the log) -/
+example : Linked [cfIo, cfA, cfB] (run cfCfg 20 [] (fun _ => 0)).st := by
+  unfold Linked
+  decide +kernel
+
+/-- the sequence of a poll thread as `Module.__pollThread` produced it **before** the repair (no `writeInitParams` behind
+the start-up sequence) — kept only to state what the repaired defect was -/
+def prologueUnrepaired (st : St) (t : Name) : List Ev :=
+  let ms := members st t
+  let polled := ms.filter (fun m => (cfgOf st m).poll)
+  match (initLoop st ms).aborted with
+  | some _ => (initLoop st ms).evs ++ [Ev.rounddone t] ++ latePolls st polled
+  | none =>
+    match (pollLoop st polled).aborted with
+    | some rest => (initLoop st ms).evs ++ (pollLoop st polled).evs ++ [Ev.rounddone t] ++ latePolls st rest
+    | none => (initLoop st ms).evs ++ (pollLoop st polled).evs ++ [Ev.rounddone t]
+
+/-- the repaired defect, as a statement about the unrepaired sequence: `b` is polled and its configured value is never
+written; and the repair changes nothing else — the two sequences differ exactly by the late writes -/
+theorem unrepaired_prologue_skips_writes :
+    Ev.firstpoll "b" ∈ prologueUnrepaired (run cfCfg 20 [] (fun _ => 0)).st "io" ∧
+    Ev.write "b" "w0" ∉ prologueUnrepaired (run cfCfg 20 [] (fun _ => 0)).st "io" ∧
+    ¬ WritesBeforeFirstPoll [cfB] (prologueUnrepaired (run cfCfg 20 [] (fun _ => 0)).st "io") := by
+  decide +kernel
+
+/-- whenever no communication failure hits the initial reads of a thread the repair changes nothing -/
+theorem repair_changes_only_broken_off_rounds (st : St) (t : Name)
+    (h : (initLoop st (members st t)).aborted = none) : prologue st t = prologueUnrepaired st t := by
+  unfold prologue prologueUnrepaired
+  simp only [h]
+  cases (pollLoop st (List.filter (fun m => (cfgOf st m).poll) (members st t))).aborted <;> rfl
 
 /-- the configuration of the former finding: `d` fails in earlyInit, `u` uses its attachment to `d` in initModule -/
 def findingCfg : Cfg :=
